@@ -3,6 +3,8 @@
 From Coq Require Import Reals Lra List ZArith Bool.
 From Inferno Require Import Base.Num Base.NumR Gen.Interpolation Gen.Extrapolation C20.InterpProofs.
 Open Scope R_scope.
-Theorem roundtrip_neighbors_nearest : forall s t p n dt : R, roundtrip (interp_nearest RN) (extrap_neighbors RN) s t p n dt.
+Theorem roundtrip_neighbors_nearest : forall s t p n dt : T RN,
+  interp_nearest RN (fst (extrap_neighbors RN s t p n dt))
+    (snd (extrap_neighbors RN s t p n dt)) t dt = s.
 Proof. exact (@Inferno.C20.InterpProofs.roundtrip_neighbors_nearest). Qed.
 Print Assumptions roundtrip_neighbors_nearest.
